@@ -60,7 +60,7 @@ def faulty_seq(rng, tags, cid, fault, place, limit):
             seq += [["a", cid, sg.wire(post).hex()]]
     elif fault == "write_error":
         calls = pre + [valid()] + post
-        seq += [["fw", cid, place]] + [["a", cid, sg.wire(calls).hex()]]
+        seq += [sg.fw(cid, place, rng.choice(sg.IO_KINDS))] + [["a", cid, sg.wire(calls).hex()]]
     elif fault == "oversize":
         big = b'{"method":"org.zv.Echo","parameters":{"c":%d,"t":%d,"v":1,"pad":"' % (cid, tags.next()) + \
               b"x" * (limit + rng.randrange(-40, 300)) + b'"}}'
@@ -189,7 +189,7 @@ def gen_cases(ck, limit):
                     frames = [sg.call("Echo", f, tags.next(), v=1) for _ in range(pre)]
                     frames.append(sg.call("Sub", f, tags.next(), more=sg.MORE[(n_items + k + nh) % 3]))
                     frames += [sg.call("Echo", f, tags.next(), v=2) for _ in range(rng.randrange(0, 2))]
-                    fseq = [["n", f], ["fw", f, pre + k], ["a", f, sg.wire(frames).hex()]]
+                    fseq = [["n", f], sg.fw(f, pre + k, sg.IO_KINDS[(n_items + k + nh + variant) % len(sg.IO_KINDS)]), ["a", f, sg.wire(frames).hex()]]
                     fsev = [["si", f, 100 + j, 1] for j in range(n_items)] + [["se", f]]
                     seqs, hsevs = [], []
                     for h in hids:
